@@ -83,16 +83,13 @@ func abbreviateAll(lines []string) []string {
 	return out
 }
 
-// positions returns the insertion points tried for a diff of n lines.
-func positions(n int, every bool) []int {
-	if every || n <= 1 {
-		p := make([]int, n+1)
-		for i := range p {
-			p[i] = i
-		}
-		return p
+// positions returns the insertion points of a diff of n lines: all of them.
+func positions(n int) []int {
+	p := make([]int, n+1)
+	for i := range p {
+		p[i] = i
 	}
-	return []int{0, 1, n} // before everything, after the first valid line, after the last
+	return p
 }
 
 // readCuts: the byte counts after which the reader breaks. every: all of 0..len;
@@ -170,7 +167,7 @@ func inputPlan(diff []string, full, every bool, rot int) []inputCase {
 	}
 	// a line that is no diff line, over-long: '+' followed by x's (record type 'x' does not exist, so it is
 	// malformed at any length; from scanLimit bytes on the line scanner cannot even deliver it)
-	for _, p := range positions(n, true) {
+	for _, p := range positions(n) {
 		for _, L := range []int{scanLimit, scanLimit + 4464} {
 			withLine("long-line", mustFail, longLine("+", L), p, fmt.Sprintf("a '+xxx...' line of %d bytes", L))
 		}
@@ -200,7 +197,7 @@ func inputPlan(diff []string, full, every bool, rot int) []inputCase {
 		out = append(out, inputCase{class: "no-final-newline", want: either, valid: n > 1, desc: "the last line has no newline",
 			reader: bytesReader(text[:len(text)-1])})
 	}
-	for _, p := range positions(n, true) {
+	for _, p := range positions(n) {
 		withLine("blank-line", either, "", p, "an empty line")
 		withLine("blank-line", either, "\r", p, "a line holding only CR")
 		withLine("comment-line", either, "# +a.example.com,1.1.1.9,3600", p, "a '#' line")
